@@ -183,7 +183,8 @@ KindsLink == {"callg1", "callg2", "callg3", "ext", "alloca", "br2", "br1", "loop
 KindsOf == IF Vocab = "int" THEN KindsInt ELSE IF Vocab = "link" THEN KindsLink
          ELSE IF Vocab = "exec" THEN {"callg1", "callg2", "callg3", "calla", "ext", "icall", "icall5", "cb", "jmpi", "switch", "br2", "loop",
                                       "ibin", "alloca", "fbin", "idx", "callg6", "callg7", "gcall", "rblk", "blkv", "callg12", "callg13", "callg14", "fmovm"}
-         ELSE IF Vocab = "single" THEN (KindsInt \cup KindsFp \cup {"calla"}) \ {"callg3"}      \* functions with at most one result
+         ELSE IF Vocab = "single" THEN (KindsInt \cup KindsFp \cup {"calla", "callg6", "callg7", "rblk", "blkv", "callg12", "callg13",
+                                                                      "callg14", "icall", "icall5"}) \ {"callg3"}   \* functions with at most one result
          ELSE KindsInt \cup KindsFp \cup {"calla", "callg6", "callg7", "rblk", "blkv", "callg12", "callg13", "callg14"}
 NeedFull == {"pld", "pst", "gcall"}
 Kinds == (IF Lean THEN KindsOf \ NeedFull ELSE KindsOf)
